@@ -41,7 +41,7 @@ At(place, stmts) ==
 ReadAll == Ret(Arr(<<Ref("x"), Ref("y"), Ref("p"), Ref("q"), Ref("r"), Ref("g")>>))
 Prelude == <<Asg("x", LitI(1)), Asg("y", LitI(2))>>
 
-NTemplates == 16
+NTemplates == 18
 \* template t with names a (parameter), b (local / loop variable) called at a place
 Template(t, a, b) ==
   CASE t = 1  -> <<Func("f", <<a>>, <<Asg(a, Plus(Ref(a), LitI(10))), Ret(Ref(a))>>)>>                         \* parameter assigned
@@ -67,12 +67,17 @@ Template(t, a, b) ==
     [] t = 14 -> <<Func("f", <<a>>, <<If(BinE(">", Ref(a), LitI(0)), <<ForEach("", b, Arr(<<LitI(1), LitI(2)>>), <<If(BinE("==", Ref(b), LitI(1)), <<Ret(Call("f", <<BinE("-", Ref(a), LitI(1))>>))>>)>>)>>), Ret(Ref(a))>>)>>  \* recursion out of a loop
     [] t = 15 -> <<Func("f", <<a>>, <<Asg(b, Plus(Ref(a), LitI(1))), Ret(Ref(b))>>)>>                               \* assignment to a non-local name: global (or the caller's local of that name)
     [] t = 16 -> <<Func("f", <<a>>, <<Ret(Ref(a))>>), Func("f", <<a>>, <<Ret(Plus(Ref(a), LitI(1000)))>>)>>         \* defined twice: the later definition counts
+    \* a function defined inside a function: as the last statement of the outer body, and in the middle
+    [] t = 17 -> <<Func("f", <<a>>, <<Asg("g", Ref(a)), Func("inner", <<b>>, <<Ret(Plus(Ref(b), LitI(1)))>>)>>),
+                   Func("f2", <<>>, <<Ret(Call("inner", <<LitI(40)>>))>>)>>
+    [] t = 18 -> <<Func("f", <<a>>, <<Func("inner", <<b>>, <<If(BinE(">", Ref(b), LitI(0)), <<Ret(LitI(1))>>)>>), Ret(Call("inner", <<Ref(a)>>))>>)>>
 
 \* definitions before (TRUE) or after (FALSE) the code that calls them
 Prog(t, a, b, place, before) ==
   LET defs == Template(t, a, b)
       arg  == IF t \in {5, 14} THEN LitI(2) ELSE LitI(3)
       call == IF t = 9 THEN <<<<"expr", Call("f", <<arg>>)>>, Asg("r", LitI(1))>>
+              ELSE IF t = 17 THEN <<<<"expr", Call("f", <<arg>>)>>, Asg("r", Call("f2", <<>>)), TE(Ref("r"))>>
               ELSE <<Asg("r", Call("f", <<arg>>)), TE(Ref("r"))>>
       body == Prelude \o At(place, call) \o <<ReadAll>>
   IN IF before THEN defs \o body ELSE body \o defs
